@@ -10,6 +10,7 @@ git -C /repo worktree prune
 git -C /repo worktree add -q --detach $W/repo HEAD
 rsync -a --exclude .git --exclude replays /verif/ $W/verif/
 echo $W/repo > $W/verif/.repo_path
+git -C /verif rev-parse --short HEAD > $W/verif/.base_commit
 sed -i "s#=> /repo#=> $W/repo#" $W/verif/harness/go.mod
 mkdir -p $W/verif/replays
 echo "workspace $W ready (repo worktree: $W/repo, verif copy: $W/verif)"
